@@ -21,11 +21,11 @@ import (
 )
 
 const (
-	Main       = -1
-	maxTasks   = 16
-	maxDec     = 1 << 18
-	StepCap    = 200_000_000
-	spinLimit  = 50_000
+	Main      = -1
+	maxTasks  = 16
+	maxDec    = 1 << 18
+	StepCap   = 200_000_000
+	spinLimit = 50_000
 )
 
 // Decision is one scheduling choice: after task Task's own yield number Ord
@@ -62,30 +62,30 @@ type taskState struct {
 }
 
 var st struct {
-	turn    int32
-	cur     int
-	active  bool
-	nTasks  int
-	tasks   [maxTasks]taskState
-	nSites  int
-	counts  []uint32 // [task*nSites + site]
-	warm    []uint32
-	countWarm bool
-	total   uint64
-	gates   []gate
-	rng     [4]uint64
-	policy  Policy
-	pctNext int
-	replay  bool
-	decs    [][]Decision // replay: per task, in order
-	log     []Decision
+	turn        int32
+	cur         int
+	active      bool
+	nTasks      int
+	tasks       [maxTasks]taskState
+	nSites      int
+	counts      []uint32 // [task*nSites + site]
+	warm        []uint32
+	countWarm   bool
+	total       uint64
+	gates       []gate
+	rng         [4]uint64
+	policy      Policy
+	pctNext     int
+	replay      bool
+	decs        [][]Decision // replay: per task, in order
+	log         []Decision
 	logOverflow bool
-	deadlock  bool
-	stepCap   bool
-	hot     []bool
+	deadlock    bool
+	stepCap     bool
+	hot         []bool
 	// reach probes
 	switches, gateBlocks, preemptInClosure, gateContention, gateCalls uint64
-	switchHash uint64
+	switchHash                                                        uint64
 }
 
 //go:norace
@@ -448,16 +448,16 @@ func mutexHook(p unsafe.Pointer, kind int) {
 // Result of the concurrent phase.
 type Result struct {
 	Deadlock, StepCap, Watchdog, LogOverflow bool
-	Yields           uint64
-	Switches         uint64
-	GateBlocks       uint64
-	GateCalls        uint64
-	PreemptInClosure uint64
-	SwitchHash       uint64
-	Log              []Decision
-	Counts           [][]uint32 // per task, per site
-	TaskYields       []uint64
-	BlockedTasks     []int
+	Yields                                   uint64
+	Switches                                 uint64
+	GateBlocks                               uint64
+	GateCalls                                uint64
+	PreemptInClosure                         uint64
+	SwitchHash                               uint64
+	Log                                      []Decision
+	Counts                                   [][]uint32 // per task, per site
+	TaskYields                               []uint64
+	BlockedTasks                             []int
 }
 
 //go:norace
